@@ -18,6 +18,7 @@ import (
 	"cmp"
 	"fmt"
 	"math/bits"
+	"slices"
 	"strconv"
 	"strings"
 
@@ -337,7 +338,7 @@ func (p Path) Compare(other Path) int {
 
 // Append adds sel as a path component to p.
 func (p Path) Append(sel ...Selector) Path {
-	return Path{path: append(p.path, sel...)}
+	return Path{path: append(slices.Clip(p.path), sel...)}
 }
 
 // ParsePath parses a CUE expression into a Path. Any error resulting from
